@@ -8,15 +8,16 @@ EXTENDS Props, Json, IOUtils, TLCExt
 
 Traces == JsonDeserialize(IOEnv.TRACE_FILE)
 
-VARIABLES tid, l, fails, marks
-tvars == <<tid, l, fails, marks>>
+VARIABLES tid, l, fails, marks, cur     \* cur: the recorded trace being replayed (read once)
+tvars == <<tid, l, fails, marks, cur>>
+View == <<tid, l>>
 
 Chk(name, cond) == IF cond THEN {} ELSE {name}
 Mark(name, cond) == IF cond THEN {name} ELSE {}
 W == {"slices", "groups", "layers"}
 F(w) == IF w = "slices" THEN "s" ELSE IF w = "groups" THEN "g" ELSE "l"
 
-T(i) == Traces[i]
+T(i) == cur
 Pre(i, k)  == IF k = 1 THEN [data |-> <<>>, flag |-> FALSE,
                               has |-> [s |-> FALSE, g |-> FALSE, l |-> FALSE],
                               ids |-> [s |-> <<>>, g |-> <<>>, l |-> <<>>],
@@ -215,9 +216,10 @@ EventMarks(i, k) ==
         ELSE IF ev.op = "metar_msg" THEN MsgMarks(ev, post, tr)
         ELSE {})
 
-Init == /\ tid \in 1..Len(Traces) /\ l = 0 /\ fails = {} /\ marks = {}
+Init == LET all == Traces IN
+        \E i \in DOMAIN all : tid = i /\ cur = all[i] /\ l = 0 /\ fails = {} /\ marks = {}
 Next == /\ l < Len(T(tid).events)
-        /\ l' = l + 1 /\ tid' = tid
+        /\ l' = l + 1 /\ tid' = tid /\ cur' = cur
         /\ fails' = EventFails(tid, l + 1)
         /\ marks' = EventMarks(tid, l + 1)
         /\ PrintT(<<"V", T(tid).tid, l + 1, fails', marks'>>)
